@@ -24,6 +24,7 @@ func init() {
 			ID: "C03",
 			Explanation: "The ordering obligations of the init barrier that hold inside one goroutine are decided on every path of the orchestration functions: extension discovery keeps exactly the non-directory entries and names them by base name; doInitExtensions sets the register count to the number of paths before the loop, creates one agent and starts at most one process per path, and reports success only after AwaitExternalAgentsRegistered returned nil; " +
 				"doRuntimeDomainInit reaches 'initDone = true' only through [extensions enabled => doInitExtensions nil] -> PreregisterRuntime nil -> runtime Exec nil -> AwaitRuntimeRestoreReady nil -> TurnOff -> [SetAgentsReadyCount(GetRegisteredAgentsSize()) nil -> AwaitAgentsReady nil]; doInvoke releases nobody unless initDone holds or the inline init returned nil; registration inserts are dominated by 'service on' under the mutex and only TurnOff closes / Clear re-opens it; the parties park inside their next call (automaton cells) and only the documented states arrive at the init gates. " +
+				"Added after the blind rounds: the registration count is armed before any extension is created or started; the latch rules of C11; the registration maps are emptied by a reset; the API server sets no connection deadlines. " +
 				"NOT decided: that an accepted registration's HTTP response precedes the runtime start in real time; supervisor behaviour; liveness under all arrival orders (reduced to the barrier primitive, C11).",
 			RuleText:    "one obligation per adjacent pair of orchestration steps, per nil-edge, per success exit, per guard, per gate-arrival call site",
 			Assumptions: append([]string{"the tracer wrappers call the function they are given exactly once and return its result (checked for the emulator's NoOpTracer)"}, trusted...),
@@ -194,7 +195,10 @@ func checkDoInitExtensions(c *report.Ctx) {
 		facts := an.NewFacts(f)
 		if len(execs) == 1 {
 			nilCreate := facts.Holds(execs[0].Block(), func(ft an.Fact) bool {
-				return an.CmpNil(ft, true, func(v ssa.Value) bool { cl, idx := an.CallOf(v); return cl != nil && ssa.Instruction(cl) == ssa.Instruction(creates[0]) && idx == 1 })
+				return an.CmpNil(ft, true, func(v ssa.Value) bool {
+					cl, idx := an.CallOf(v)
+					return cl != nil && ssa.Instruction(cl) == ssa.Instruction(creates[0]) && idx == 1
+				})
 			})
 			c.Check("R-GUARD", name+"/exec-after-agent-created", "a process is started only for an agent that was created (registration open, name free)", nilCreate, an.InstrPos(execs[0]), 1, "facts: %s", factsString(facts.At(execs[0].Block())))
 			// Exec's Path is the ranged path
@@ -408,10 +412,10 @@ func checkRegistrationCloses(c *report.Ctx) {
 // checkInitGateArrivals: who arrives at / sizes / awaits the four init gates.
 func checkInitGateArrivals(c *report.Ctx) {
 	want := map[string][]string{
-		initFlowI + "ExternalAgentRegistered": {"L/core.ExternalAgentStartedState.Register"},
-		initFlowI + "RuntimeRestoreReady":     {"L/core.RuntimeStartedState.Ready", "L/core.RuntimeStartedState.RestoreReady"},
-		initFlowI + "RuntimeReady":            {"L/core.RuntimeRestoringState.Ready", "L/core.RuntimeStartedState.Ready"},
-		initFlowI + "AgentReady":              {"L/core.ExternalAgentRegisteredState.Ready", "L/core.InternalAgentRegisteredState.Ready"},
+		initFlowI + "ExternalAgentRegistered":        {"L/core.ExternalAgentStartedState.Register"},
+		initFlowI + "RuntimeRestoreReady":            {"L/core.RuntimeStartedState.Ready", "L/core.RuntimeStartedState.RestoreReady"},
+		initFlowI + "RuntimeReady":                   {"L/core.RuntimeRestoringState.Ready", "L/core.RuntimeStartedState.Ready"},
+		initFlowI + "AgentReady":                     {"L/core.ExternalAgentRegisteredState.Ready", "L/core.InternalAgentRegisteredState.Ready"},
 		initFlowI + "SetExternalAgentsRegisterCount": {"L/rapid.doInitExtensions"},
 		initFlowI + "SetAgentsReadyCount":            {"L/rapid.doRuntimeDomainInit"},
 		initFlowI + "AwaitExternalAgentsRegistered":  {"L/rapid.doInitExtensions"},
